@@ -432,6 +432,8 @@ func init() {
 				note: "all value vectors in {0..3}^n, n<=6"},
 			{name: "sampled-biased", n: tierN(6000, 100000), unit: 1500, run: c04Biased, floors: map[string]int64{"permutations_after_biases": 9000},
 				note: "1..2 fired biases out of mixing / reversal / omission / anchoring (no per-alternative random draws; anchoring alternatives with and without coefficients), exact (dyadic / small-integer) data, values outside declared ranges included: value, class and links per alternative under 3 permutations"},
+			{name: "concealedIds", n: tierN(3000, 50000), unit: 1500, run: c04ConcealedIds, floors: map[string]int64{"permutations_after_concealment": 8000},
+				note: "weighted sum after a seeded criteria concealment on alternatives whose ids mix numeric suffixes and free text (a9, a10, a1x, 10, 9, ...): 4 listing permutations each"},
 			{name: "sampled-service", n: tierN(2000, 30000), unit: 1000, run: c04Sampled, service: true,
 				note: "the same generator and oracle as the stream named in front of the dash, but every request goes through decideHandler of main.go in-process (gin binding, the handler's own request object) after a history of 1..3 unrelated requests (accepted and rejected)"},
 			{name: "sampled", n: tierN(6000, 150000), unit: 1500, run: c04Sampled, floors: map[string]int64{"permutations": 10000, "nontrivial": 4000}},
